@@ -1,4 +1,4 @@
-import Sx.Cols -- (DelayCols.lean in this directory, module name Sx.Cols in the scratch project)
+import Sx.Cols
 /-! Design experiment: suffix-stable round trip through stage trees. Core Lean only. -/
 namespace Sx
 variable {α : Type}
